@@ -48,7 +48,7 @@ def facts(case, tname, flags):
         'lowfi': 1 if t.get('use_low_fidelity_model') else 0,
         'pitch': q(case['pitch']), 'L': q(case['L']),
         'mesh': 1 if ms is None else (1 if ms > 0 else (0 if ms == 0 else -1)),
-        'outer': [q(tt['duct_ftf'][-1]) for tt in case['types'].values()],
+        'outer': [q(max(tt['duct_ftf'])) for tt in case['types'].values()],
         'regs': regs, 'nbc': nbc, 'bcval': bcval,
         'names': [1, flags.get('names', 1)],
         'pow': [1, flags.get('pow', 1)],
@@ -440,6 +440,16 @@ def targeted(rng, base, tier):
         def unequal(c, t, r):
             t['duct_ftf'] = [x - 0.001 for x in t['duct_ftf']]
         add('unequal-outer-ducts', unequal, ['UnequalOuterDucts'])
+
+        # the duct values may be listed in any order (inner / outer is by
+        # magnitude): only the outermost value differs, listed first
+        def unequal_desc(c, t, r):
+            asc = sorted(t['duct_ftf'])
+            asc[-1] -= 0.0008
+            t['duct_ftf'] = asc
+            c['ftf_listing'] = 'desc'
+        add('unequal-outer-ducts-listed-descending', unequal_desc,
+            ['UnequalOuterDucts'])
     return out
 
 
